@@ -4,7 +4,8 @@ from .openbase import run_open, replay_open
 CL = {1: "a hand opened with fewer than two dealt in", 2: "a player who is not seated-in with chips was dealt in",
       3: "a seated-in player with chips who has been dealt in before (and kept chips) was left out",
       4: "a newcomer seated strictly between button and big blind was dealt in while still between them",
-      5: "a seated-in player with chips missed more than three hands in a row"}
+      5: "a seated-in player with chips missed more than three hands in a row",
+      6: "a seated-in player with chips was left out although not strictly between the button and the big blind"}
 
 
 def run(res, replay=None):
